@@ -1,5 +1,6 @@
 From Coq Require Import String.
 Require Import OV.Base.Bytes OV.Base.Py OV.Base.PyInt OV.Base.Str OV.Base.Regex OV.Base.IO OV.Base.PyFloat.
+Require Import OV.Model.C10_Regex OV.Gen.C10_Units OV.Model.C10.
 From Coq Require Extraction ExtrOcamlBasic.
 
 (* ---- Base/PyFloat.v against CPython ---- *)
@@ -28,7 +29,30 @@ Definition run_pf (op : bytes) (args : list bytes) : bytes :=
     out_float (f_of_ratio false (Z.to_pos (arg_Z a)) (Z.to_pos (arg_Z b)))
   else lit "BADOP".
 
+(* ---- the property's functions ---- *)
+Definition out_num (n : num) : bytes :=
+  match n with NInt z => lit "i:" ++ out_Z z | NFloat x => lit "f:" ++ float_hex x end.
+
+Definition out_span (g : groups) (i : nat) : bytes :=
+  match gget g i with Some (a, b) => out_N a ++ [45%N] ++ out_N b | None => lit "None" end.
+
 Definition run (args : list bytes) : bytes :=
   let op := nth_arg args 0 in
-  run_pf op args.
+  if is_op "s2b" op then
+    out_res out_num (string_to_bytes (nth_arg args 1) (nth_arg args 2) (arg_bool (nth_arg args 3)))
+  else if is_op "xb" op then out_res out_Z (extract_bytes (nth_arg args 1))
+  else if is_op "rx" op then
+    match lookup (nth_arg args 2) unit_system_info with
+    | None => lit "NOSYS"
+    | Some (_, r) => match rz_match r (nth_arg args 1) with
+                     | None => lit "None"
+                     | Some (e, g) => out_N e ++ [32%N] ++ out_span g 1 ++ [32%N] ++ out_span g 2 ++ [32%N] ++ out_span g 3
+                     end
+    end
+  else if is_op "rxs" op then
+    match re_search size_re (nth_arg args 1) with
+    | None => lit "None"
+    | Some (s, e, g) => out_N s ++ [45%N] ++ out_N e ++ [32%N] ++ out_span g 1 ++ [32%N] ++ out_span g 2 ++ [32%N] ++ out_span g 3 ++ [32%N] ++ out_span g 4
+    end
+  else run_pf op args.
 Extraction "model.ml" run.
